@@ -731,6 +731,9 @@ fn type_tree<'tcx>(cx: &Cx<'tcx>, roots: Vec<Ty<'tcx>>) -> J {
                         let mut fts = vec![];
                         for f in &var.fields {
                             let ft = f.ty(tcx, args);
+                            let ft = tcx
+                                .try_normalize_erasing_regions(ty::TypingEnv::fully_monomorphized(), ty::Unnormalized::new_wip(ft))
+                                .unwrap_or(ft);
                             children.push(s(cx.ty(ft)));
                             fts.push(J::Obj(vec![("name", s(f.name.to_string())), ("ty", s(cx.ty(ft)))]));
                             work.push(ft);
